@@ -73,8 +73,8 @@ func verifGPassShedding(shedder load.Shedder, metrics *stat.Metrics) func(http.H
 	return verifGPass
 }
 func verifGPassMetric(metrics *stat.Metrics) func(http.Handler) http.Handler { return verifGPass }
-func verifGRelevantCaller() runtime.Frame                                   { return runtime.Frame{} }
-func verifGNow() time.Duration                                              { return 0 }
+func verifGRelevantCaller() runtime.Frame                                    { return runtime.Frame{} }
+func verifGNow() time.Duration                                               { return 0 }
 
 // ---- the request's context (the deadline is fired by the harness) ----
 
@@ -160,11 +160,12 @@ func (w *verifGConn) Write(p []byte) (int, error) {
 // ---- one request: what it carries, what its handler does, what was seen ----
 
 const (
-	verifGOpHeader = iota // Header().Set("X-Verif", hv)
-	verifGOpStatus        // WriteHeader(code)
-	verifGOpWrite         // Write(data)
-	verifGOpPanic         // panic
-	verifGOpNested        // the next request arrives while this one is inside its handler
+	verifGOpHeader    = iota // Header().Set("X-Verif", hv)
+	verifGOpStatus           // WriteHeader(code)
+	verifGOpWrite            // Write(data)
+	verifGOpPanic            // panic
+	verifGOpNested           // the next request arrives while this one is inside its handler
+	verifGOpBadStatus        // WriteHeader with a code net/http refuses (panics inside the response writer)
 )
 
 type verifGOp struct {
@@ -200,6 +201,7 @@ type verifGPlan struct {
 	// handler script
 	hv      string
 	code    int
+	badCode int // a status code net/http refuses
 	ops     []verifGOp
 	mwPanic bool
 	fireAt  int // position (before op i; len(ops) = after the last one) where the deadline passes; -1 never
@@ -399,6 +401,8 @@ func verifGHandle(w http.ResponseWriter, r *http.Request) {
 			w.Write(op.data)
 		case verifGOpPanic:
 			panic("route handler panicked")
+		case verifGOpBadStatus:
+			w.WriteHeader(p.badCode)
 		case verifGOpNested:
 			p.nested.serve()
 		}
@@ -703,7 +707,7 @@ func verifGPanics(jwtMode int) {
 	p.code = verifInt("code")
 	verifAssume(p.code >= 100)
 	verifAssume(p.code <= 599)
-	where := verifChoose("panicWhere", 4)
+	where := verifChoose("panicWhere", 5)
 	committed := false
 	switch where {
 	case 0: // in the user middleware, before the handler
@@ -719,6 +723,15 @@ func verifGPanics(jwtMode int) {
 	case 3: // after committing a status
 		p.ops = []verifGOp{{kind: verifGOpStatus}, {kind: verifGOpPanic}}
 		committed = true
+	case 4: // the panic is raised INSIDE the response writer: an invalid status code (as net/http's
+		// checkWriteHeaderCode refuses); only where a timeout writer is in place (the harness's own
+		// connection writer accepts any code)
+		if e.routeD == 0 && e.cfgTimeout == 0 {
+			return
+		}
+		p.badCode = []int{0, 99, 1000}[verifChoose("badCode", 3)]
+		p.ops = []verifGOp{{kind: verifGOpBadStatus}}
+		verifReach("panic-in-writer")
 	}
 	p.serve()
 	p.settle()
